@@ -23,6 +23,22 @@
 (*                                                                         *)
 (* The whole state is one record `st`; actions are pure operators          *)
 (* st' = Op(st, args).                                                     *)
+(*                                                                         *)
+(* Plain-sum folds ("fold_sum", "fold_sum_upd": add = acc + v, remove =    *)
+(* acc - v, init = 0, values include 0): the accumulator of a NON-empty    *)
+(* map can equal init, which the injective weights of the other fold       *)
+(* instances exclude.                                                      *)
+(*                                                                         *)
+(* Chained operators ("chain_fm_map" = in.incr_filter_map(f).incr_map(g),  *)
+(* "chain_fm_fold" = in.incr_filter_map(f).incr_unordered_fold(plain sum)):*)
+(* the second map_with_old node reads the OUTPUT node of the first.  A     *)
+(* map_with_old node has no PartialEq cutoff: whenever the first stage     *)
+(* runs and reports did_change = true (its diff was non-empty, e.g. a key  *)
+(* that is filtered out before and after the edit) the second stage runs,  *)
+(* possibly with an input EQUAL to its stored old input: empty diff,       *)
+(* did_change = false, no user function call, and the closure must still   *)
+(* remember its input for the next real edit.  When the first stage        *)
+(* reports did_change = false the second stage does not run.               *)
 (***************************************************************************)
 EXTENDS Integers, Sequences, FiniteSets, TLC
 
@@ -60,18 +76,26 @@ None == [some |-> FALSE, v |-> 0]
 (* harness/src/bin/mapops.rs instantiates the real operators with the same *)
 (* functions, instrumented).                                               *)
 FmOps    == {"map", "filter_map", "mapi", "filter_mapi"}
-FoldOps  == {"fold", "fold_rev", "fold_upd", "fold_upd_rev"}
+SumFolds == {"fold_sum", "fold_sum_upd"}
+FoldOps  == {"fold", "fold_rev", "fold_upd", "fold_upd_rev"} \cup SumFolds
 PartOps  == {"partition", "partition_mapi"}
 MergeOps == {"merge"}
-AllOps   == FmOps \cup FoldOps \cup PartOps \cup MergeOps
+ChainOps == {"chain_fm_map", "chain_fm_fold"}
+AllOps   == FmOps \cup FoldOps \cup PartOps \cup MergeOps \cup ChainOps
+
+\* the two stages of a chain are operators of their own (not instances): "chain_f" =
+\* incr_filter_map(f), "chain_g" = incr_map(g); the fold stage is "fold_sum"
+Stage1(o) == "chain_f"
+Stage2(o) == IF o = "chain_fm_map" THEN "chain_g" ELSE "fold_sum"
+StageFm == {"chain_f", "chain_g"}
 
 Vars == {"in", "left", "right"}
 Reads(o) == IF o \in MergeOps THEN <<"left", "right">> ELSE <<"in">>
 ReadSet(o) == {Reads(o)[i] : i \in DOMAIN Reads(o)}
 
 \* user functions of incr_map / incr_filter_map do not see the key: logged with key 0
-Keyless(o) == o \in {"map", "filter_map"}
-HasUpdate(o) == o \in {"fold_upd", "fold_upd_rev"}
+Keyless(o) == o \in {"map", "filter_map", "chain_f", "chain_g"}
+HasUpdate(o) == o \in {"fold_upd", "fold_upd_rev", "fold_sum_upd"}
 Revert(o) == o \in {"fold_rev", "fold_upd_rev"} \cup PartOps   \* PartitionMapi: always true
 
 Call(role, k, args) == [role |-> role, key |-> k, args |-> args]
@@ -82,11 +106,17 @@ FmF(o, k, v) ==
     [] o = "filter_map"  -> IF v = 0 THEN None ELSE Some(v + 10)
     [] o = "mapi"        -> Some(10 * k + v)
     [] o = "filter_mapi" -> IF (k + v) % 2 = 0 THEN None ELSE Some(10 * k + v)
-FmCall(o, k, v) == Call("f", IF Keyless(o) THEN 0 ELSE k, <<v>>)
+    [] o = "chain_f"     -> IF v % 2 = 0 THEN None ELSE Some(v + 10)   \* stage 1 of the chains
+    [] o = "chain_g"     -> Some(v + 100)                              \* stage 2 of chain_fm_map
+\* the user function of the second stage of a chain is logged with role "g"
+FmCall(o, k, v) == Call(IF o = "chain_g" THEN "g" ELSE "f", IF Keyless(o) THEN 0 ELSE k, <<v>>)
 
-\* fold: an injective weighted sum (requires NV <= 4), add = +W, remove = -W
+\* fold: an injective weighted sum (requires NV <= 4), add = +W, remove = -W, init 3;
+\* SumFolds: the plain sum of the values, init 0 (a non-empty map may fold to init)
 FoldInit == 3
 W(k, v) == (v + 1) * 5 ^ (k - 1)
+FInit(o) == IF o \in SumFolds THEN 0 ELSE FoldInit
+FW(o, k, v) == IF o \in SumFolds THEN v ELSE W(k, v)
 
 \* incr_partition pred(k,v) (wrapper clones v); incr_partition_mapi f(k,v) -> Either
 PartF(o, k, v) ==
@@ -104,9 +134,9 @@ MergeF(k, tag, l, r) ==
 FilterMapDef(o, m) ==
   LET D == {k \in DOMAIN m : FmF(o, k, m[k]).some} IN [k \in D |-> FmF(o, k, m[k]).v]
 
-RECURSIVE SumW(_, _)
-SumW(m, ks) == IF ks = <<>> THEN 0 ELSE W(Head(ks), m[Head(ks)]) + SumW(m, Tail(ks))
-FoldDef(m) == FoldInit + SumW(m, MapKeySeq(m))
+RECURSIVE SumW(_, _, _)
+SumW(o, m, ks) == IF ks = <<>> THEN 0 ELSE FW(o, Head(ks), m[Head(ks)]) + SumW(o, m, Tail(ks))
+FoldDef(o, m) == FInit(o) + SumW(o, m, MapKeySeq(m))
 
 MergeOpt(l, r, k) ==
   CASE Has(l, k) /\ Has(r, k)  -> MergeF(k, 3, l[k], r[k])
@@ -123,18 +153,25 @@ PartitionDef(o, m) ==
   IN <<[k \in L |-> PartF(o, k, m[k]).v], [k \in R |-> PartF(o, k, m[k]).v]>>
 
 \* ins: sequence of the input maps the operator reads (<<m>> or <<left, right>>)
+\* the intermediate map of a chain (output of its first stage)
+MidDef(o, m) == FilterMapDef(Stage1(o), m)
 Def(o, ins) ==
   CASE o \in FmOps    -> FilterMapDef(o, ins[1])
-    [] o \in FoldOps  -> FoldDef(ins[1])
+    [] o \in FoldOps  -> FoldDef(o, ins[1])
     [] o \in PartOps  -> PartitionDef(o, ins[1])
     [] o \in MergeOps -> MergeDef(ins[1], ins[2])
+    [] o \in ChainOps -> IF Stage2(o) \in StageFm
+                         THEN FilterMapDef(Stage2(o), MidDef(o, ins[1]))
+                         ELSE FoldDef(Stage2(o), MidDef(o, ins[1]))
 
+\* scalar output (a fold) or map output
+ScalarOut(o) == o \in FoldOps \/ o = "chain_fm_fold"
 \* a value of the operator's output type (placeholder before the first run)
-OutDummy(o) == CASE o \in FoldOps -> 0
+OutDummy(o) == CASE ScalarOut(o) -> 0
                  [] o \in PartOps -> <<EmptyMap, EmptyMap>>
                  [] OTHER -> EmptyMap
 \* export format of an output
-OutJson(o, x) == CASE o \in FoldOps -> x
+OutJson(o, x) == CASE ScalarOut(o) -> x
                    [] o \in PartOps -> <<MapSeq(x[1]), MapSeq(x[2])>>
                    [] OTHER -> MapSeq(x)
 
@@ -180,11 +217,11 @@ FmStep(o, ran, oldIn, oldOut, new) ==
 
 (* UnorderedFold implementations: PlainUnorderedFold / UpdateUnorderedFold  *)
 (* with the sum, and im_rc.rs PartitionMapi.  acc = [out, calls].           *)
-UInit(o) == IF o \in FoldOps THEN FoldInit ELSE <<EmptyMap, EmptyMap>>
+UInit(o) == IF o \in FoldOps THEN FInit(o) ELSE <<EmptyMap, EmptyMap>>
 
 UAdd(o, acc, k, v) ==
   IF o \in FoldOps
-  THEN [out |-> acc.out + W(k, v), calls |-> Append(acc.calls, Call("add", k, <<v>>))]
+  THEN [out |-> acc.out + FW(o, k, v), calls |-> Append(acc.calls, Call("add", k, <<v>>))]
   ELSE LET e == PartF(o, k, v) IN
        [out   |-> IF e.left THEN <<MapPut(acc.out[1], k, e.v), acc.out[2]>>
                             ELSE <<acc.out[1], MapPut(acc.out[2], k, e.v)>>,
@@ -192,13 +229,13 @@ UAdd(o, acc, k, v) ==
 
 URemove(o, acc, k, v) ==
   IF o \in FoldOps
-  THEN [out |-> acc.out - W(k, v), calls |-> Append(acc.calls, Call("remove", k, <<v>>))]
+  THEN [out |-> acc.out - FW(o, k, v), calls |-> Append(acc.calls, Call("remove", k, <<v>>))]
   ELSE [out |-> <<MapRemove(acc.out[1], k), MapRemove(acc.out[2], k)>>, calls |-> acc.calls]
 
 UUpdate(o, acc, k, old, new) ==
   IF o \in FoldOps
   THEN IF HasUpdate(o)
-       THEN [out   |-> acc.out - W(k, old) + W(k, new),
+       THEN [out   |-> acc.out - FW(o, k, old) + FW(o, k, new),
              calls |-> Append(acc.calls, Call("update", k, <<old, new>>))]
        ELSE UAdd(o, URemove(o, acc, k, old), k, new)   \* trait default: remove then add
   ELSE LET e == PartF(o, k, new) IN
@@ -286,12 +323,24 @@ Step(o, ran, oldIn, oldOut, ins) ==
 (*           calls (ghost: user function invocations of the current round), *)
 (*           last (ghost: what the last Stabilise did with this operator)   *)
 (*  clean    TRUE right after Stabilise                                     *)
-OpInit(o) ==
+(* A chain has in addition: mid (value of the first stage's node; ran,      *)
+(* oldIn, ranInputVersion, last describe the first stage), ran2, oldIn2     *)
+(* (closure state of the second stage: the intermediate map it saw at its   *)
+(* last run), last2 (ghost, second stage); out / down are the second        *)
+(* stage's node and its dependant; calls holds the calls of both stages     *)
+(* (role "f" = first stage, "g" / "add" / "remove" = second stage).         *)
+OpInitBase(o) ==
   [ran |-> FALSE, out |-> OutDummy(o), down |-> OutDummy(o),
    oldIn |-> [i \in DOMAIN Reads(o) |-> EmptyMap], observed |-> FALSE,
    ranInputVersion |-> [i \in DOMAIN Reads(o) |-> 0], calls |-> <<>>,
    last |-> [ranNow |-> FALSE, first |-> FALSE, mode |-> "none", did |-> FALSE,
              prevIn |-> [i \in DOMAIN Reads(o) |-> EmptyMap], prevOut |-> OutDummy(o)]]
+OpInit(o) ==
+  IF o \notin ChainOps THEN OpInitBase(o)
+  ELSE [OpInitBase(o) EXCEPT !.last.prevOut = EmptyMap] @@
+       [mid |-> EmptyMap, ran2 |-> FALSE, oldIn2 |-> EmptyMap,
+        last2 |-> [ranNow |-> FALSE, first |-> FALSE, mode |-> "none", did |-> FALSE,
+                   prevIn |-> EmptyMap, prevOut |-> OutDummy(o)]]
 
 InitState ==
   [inp |-> [w \in Vars |-> EmptyMap], node |-> [w \in Vars |-> None],
@@ -306,7 +355,31 @@ StabiliseOp(s) ==
       chg(w) == nec(w) /\ (~s.node[w].some \/ s.node[w].v # s.inp[w])
       node2 == [w \in Vars |-> IF chg(w) THEN Some(s.inp[w]) ELSE s.node[w]]
       ver2 == [w \in Vars |-> IF chg(w) THEN s.ver[w] + 1 ELSE s.ver[w]]
-      idle(r) == [r EXCEPT !.calls = <<>>, !.last.ranNow = FALSE]
+      idle(r) == IF "last2" \in DOMAIN r
+                 THEN [r EXCEPT !.calls = <<>>, !.last.ranNow = FALSE, !.last2.ranNow = FALSE]
+                 ELSE [r EXCEPT !.calls = <<>>, !.last.ranNow = FALSE]
+      \* a chain: the first stage runs like any operator; the second stage (a map_with_old
+      \* node whose input is the first stage's node) runs iff it never ran or the first stage
+      \* reported did_change -- also when the intermediate map is equal to the one it stored
+      RunChain(o, r, ins, vers) ==
+        LET s1 == FmStep(Stage1(o), r.ran, r.oldIn[1], r.mid, ins[1])
+            run2 == s1.did \/ ~r.ran2
+            s2 == IF Stage2(o) \in StageFm
+                  THEN FmStep(Stage2(o), r.ran2, r.oldIn2, r.out, s1.out)
+                  ELSE UStep(Stage2(o), r.ran2, r.oldIn2, r.out, s1.out)
+        IN [ran |-> TRUE, mid |-> s1.out, oldIn |-> ins, observed |-> TRUE,
+            ranInputVersion |-> vers,
+            ran2 |-> r.ran2 \/ run2,
+            out |-> IF run2 THEN s2.out ELSE r.out,
+            oldIn2 |-> IF run2 THEN s1.out ELSE r.oldIn2,
+            down |-> IF run2 /\ (s2.did \/ ~r.ran2) THEN s2.out ELSE r.down,
+            calls |-> IF run2 THEN s1.calls \o s2.calls ELSE s1.calls,
+            last |-> [ranNow |-> TRUE, first |-> ~r.ran, mode |-> s1.mode, did |-> s1.did,
+                      prevIn |-> r.oldIn, prevOut |-> r.mid],
+            last2 |-> IF run2
+                      THEN [ranNow |-> TRUE, first |-> ~r.ran2, mode |-> s2.mode, did |-> s2.did,
+                            prevIn |-> r.oldIn2, prevOut |-> r.out]
+                      ELSE [r.last2 EXCEPT !.ranNow = FALSE, !.first = FALSE]]
       RunOp(o) ==
         LET r == s.op[o]
             ins == [i \in DOMAIN Reads(o) |-> node2[Reads(o)[i]].v]
@@ -316,6 +389,7 @@ StabiliseOp(s) ==
            ELSE IF o \in MergeOps /\ r.ran /\ ins = r.oldIn
            THEN \* zip recomputes to an equal tuple: cutoff, map_with_old does not run
                 [idle(r) EXCEPT !.ranInputVersion = vers]
+           ELSE IF o \in ChainOps THEN RunChain(o, r, ins, vers)
            ELSE LET res == Step(o, r.ran, r.oldIn, r.out, ins) IN
                 [ran |-> TRUE, out |-> res.out,
                  down |-> IF res.did \/ ~r.ran THEN res.out ELSE r.down,
@@ -339,9 +413,13 @@ Spec == Init /\ [][Next]_st
 
 \* C15: after a stabilise every observed operator shows the plain function of the
 \* current inputs, directly and through a dependant
+\* a chain: moreover the intermediate map is the plain function of the input and the second
+\* stage remembers the intermediate map it saw last
 OpCorrectAt(s, o) ==
   LET r == s.op[o] IN
-  (s.clean /\ r.observed) => (r.ran /\ r.out = Def(o, CurIns(s, o)) /\ r.down = r.out)
+  (s.clean /\ r.observed) =>
+     /\ r.ran /\ r.out = Def(o, CurIns(s, o)) /\ r.down = r.out
+     /\ o \in ChainOps => (r.ran2 /\ r.mid = MidDef(o, s.inp["in"]) /\ r.oldIn2 = r.mid)
 OpCorrect(s) == \A o \in Ops : OpCorrectAt(s, o)
 
 \* keys a round may touch given the operator's input at its previous run (prev) and now (cur)
@@ -358,14 +436,27 @@ ProportionalCalls(o, cs, keys, cur) ==
           /\ \A i \in DOMAIN cs : \E k \in keys \cap DOMAIN cur[1] : cs[i].args[1] = cur[1][k]
      ELSE \A i \in DOMAIN cs : cs[i].key \in keys
 
+\* the calls of the first stage of a chain (role "f") / of its second stage
+Stage1Calls(cs) == SelectSeq(cs, LAMBDA c : c.role = "f")
+Stage2Calls(cs) == SelectSeq(cs, LAMBDA c : c.role # "f")
+
 ProportionalAt(s, o) ==
-  LET r == s.op[o] IN
+  LET r == s.op[o]
+      keys1 == IF r.last.first \/ r.last.mode = "all"
+               THEN AllKeys(r.last.prevIn, r.oldIn)          \* may process every key once
+               ELSE AllowedKeys(r.last.prevIn, r.oldIn)
+  IN
   IF ~r.last.ranNow THEN r.calls = <<>>
-  ELSE ProportionalCalls(o, r.calls,
-          IF r.last.first \/ r.last.mode = "all"
-          THEN AllKeys(r.last.prevIn, r.oldIn)          \* may process every key once
-          ELSE AllowedKeys(r.last.prevIn, r.oldIn),
-          r.oldIn)
+  ELSE IF o \notin ChainOps THEN ProportionalCalls(o, r.calls, keys1, r.oldIn)
+  ELSE \* each stage relative to ITS input: the second stage's input is the intermediate
+       \* map, at its previous run (last2.prevIn) and now (oldIn2)
+       /\ ProportionalCalls(Stage1(o), Stage1Calls(r.calls), keys1, r.oldIn)
+       /\ IF ~r.last2.ranNow THEN Stage2Calls(r.calls) = <<>>
+          ELSE ProportionalCalls(Stage2(o), Stage2Calls(r.calls),
+                  IF r.last2.first \/ r.last2.mode = "all"
+                  THEN AllKeys(<<r.last2.prevIn>>, <<r.oldIn2>>)
+                  ELSE AllowedKeys(<<r.last2.prevIn>>, <<r.oldIn2>>),
+                  <<r.oldIn2>>)
 Proportional(s) == \A o \in Ops : ProportionalAt(s, o)
 
 \* a changed output is always announced (dependants are never starved).  The first run
@@ -373,7 +464,12 @@ Proportional(s) == \A o \in Ops : ProportionalAt(s, o)
 \* which is harmless because a dependant that never ran runs anyway (OpCorrect checks `down`).
 NoSpuriousChangeAt(s, o) ==
   LET r == s.op[o] IN
-  (r.last.ranNow /\ ~r.last.first /\ r.out # r.last.prevOut) => r.last.did
+  IF o \notin ChainOps
+  THEN (r.last.ranNow /\ ~r.last.first /\ r.out # r.last.prevOut) => r.last.did
+  ELSE /\ (r.last.ranNow /\ ~r.last.first /\ r.mid # r.last.prevOut) => r.last.did
+       /\ (r.last2.ranNow /\ ~r.last2.first /\ r.out # r.last2.prevOut) => r.last2.did
+       \* the second stage runs exactly when the first one announced a change
+       /\ r.last2.ranNow <=> (r.last.ranNow /\ (r.last.did \/ r.last2.first))
 NoSpuriousChange(s) == \A o \in Ops : NoSpuriousChangeAt(s, o)
 
 InvOpCorrect == OpCorrect(st)
